@@ -34,6 +34,18 @@ func main() {
 			lenform = true
 		}
 	}
+	revswitch := false
+	for _, a := range os.Args[2:] {
+		if a == "revswitch" {
+			revswitch = true
+		}
+	}
+	sw2if := false
+	for _, a := range os.Args[2:] {
+		if a == "sw2if" {
+			sw2if = true
+		}
+	}
 	mirror := map[token.Token]token.Token{token.LSS: token.GTR, token.GTR: token.LSS, token.LEQ: token.GEQ, token.GEQ: token.LEQ, token.EQL: token.EQL, token.NEQ: token.NEQ}
 	n := 0
 	filepath.Walk(root, func(p string, fi os.FileInfo, err error) error {
@@ -49,7 +61,133 @@ func main() {
 			return nil
 		}
 		changed := false
+		if sw2if {
+			// a switch on a plain variable or field with literal cases becomes an if / else-if chain
+			var conv func(list []ast.Stmt)
+			hasBreak := func(n ast.Node) bool {
+				found := false
+				ast.Inspect(n, func(x ast.Node) bool {
+					if br, ok := x.(*ast.BranchStmt); ok && (br.Tok == token.BREAK || br.Tok == token.FALLTHROUGH) {
+						found = true
+					}
+					return !found
+				})
+				return found
+			}
+			conv = func(list []ast.Stmt) {
+				for i, st := range list {
+					sw, ok := st.(*ast.SwitchStmt)
+					if !ok || sw.Tag == nil || sw.Init != nil || hasBreak(sw.Body) {
+						continue
+					}
+					switch sw.Tag.(type) {
+					case *ast.Ident, *ast.SelectorExpr:
+					default:
+						continue
+					}
+					var first, last *ast.IfStmt
+					var deflt *ast.BlockStmt
+					okAll := true
+					for _, c := range sw.Body.List {
+						cc := c.(*ast.CaseClause)
+						if cc.List == nil {
+							deflt = &ast.BlockStmt{List: cc.Body}
+							continue
+						}
+						var cond ast.Expr
+						for _, e := range cc.List {
+							if _, isLit := e.(*ast.BasicLit); !isLit {
+								okAll = false
+							}
+							eq := &ast.BinaryExpr{X: sw.Tag, Op: token.EQL, Y: e}
+							if cond == nil {
+								cond = eq
+							} else {
+								cond = &ast.BinaryExpr{X: cond, Op: token.LOR, Y: eq}
+							}
+						}
+						is := &ast.IfStmt{Cond: cond, Body: &ast.BlockStmt{List: cc.Body}}
+						if first == nil {
+							first = is
+						} else {
+							last.Else = is
+						}
+						last = is
+					}
+					if !okAll || first == nil {
+						continue
+					}
+					if deflt != nil {
+						last.Else = deflt
+					}
+					list[i] = first
+					changed = true
+					n++
+				}
+			}
+			ast.Inspect(f, func(nd ast.Node) bool {
+				switch x := nd.(type) {
+				case *ast.BlockStmt:
+					conv(x.List)
+				case *ast.CaseClause:
+					conv(x.Body)
+				}
+				return true
+			})
+		}
+		if revswitch {
+			// reverse the order of the arms of every switch on a value whose cases are all literals (disjoint),
+			// and of every type switch; a default arm stays where it is; arms with fallthrough are left alone
+			ast.Inspect(f, func(nd ast.Node) bool {
+				var body *ast.BlockStmt
+				switch x := nd.(type) {
+				case *ast.SwitchStmt:
+					if x.Tag == nil {
+						return true
+					}
+					body = x.Body
+					for _, st := range body.List {
+						for _, e := range st.(*ast.CaseClause).List {
+							if _, isLit := e.(*ast.BasicLit); !isLit {
+								return true
+							}
+						}
+					}
+				case *ast.TypeSwitchStmt:
+					body = x.Body
+				default:
+					return true
+				}
+				var idx []int
+				for i, st := range body.List {
+					cc := st.(*ast.CaseClause)
+					if cc.List == nil {
+						continue
+					}
+					for _, bs := range cc.Body {
+						if br, isBr := bs.(*ast.BranchStmt); isBr && br.Tok == token.FALLTHROUGH {
+							return true
+						}
+					}
+					idx = append(idx, i)
+				}
+				if len(idx) < 2 {
+					return true
+				}
+				for a, b := 0, len(idx)-1; a < b; a, b = a+1, b-1 {
+					ca, cb := body.List[idx[a]].(*ast.CaseClause), body.List[idx[b]].(*ast.CaseClause)
+					ca.List, cb.List = cb.List, ca.List
+					ca.Body, cb.Body = cb.Body, ca.Body
+				}
+				changed = true
+				n++
+				return true
+			})
+		}
 		ast.Inspect(f, func(nd ast.Node) bool {
+			if revswitch || sw2if {
+				return false
+			}
 			b, ok := nd.(*ast.BinaryExpr)
 			if !ok {
 				return true
